@@ -41,7 +41,7 @@ TAIL = bytes([0xC3, 0x2A, 0xC0])
 
 
 def nontrivial(op, impl):
-    if op.startswith("mp.scope"):
+    if op.startswith("mp.scope") or op.startswith("mp.tuple"):
         return ";F" in impl or impl.startswith("F")
     t = impl.split(" ")
     return t[0] == "no" or (t[0] == "ok" and op.startswith("mp.skip") and int(t[-1]) > 1)
@@ -103,4 +103,40 @@ def gen(tier, rng, boost=1):
     # the oracle (abstract data model) demands that every untouched neighbour loads as if nothing had happened
     scope_ops = gen_scope_ops(tier, rng, boost, partial_arrays=False, count=(600 if tier == "quick" else 10000) * boost)
     ops += [o for o in scope_ops if " skip " in o]
+    ops += tuple_gen(tier, rng, boost)
+    return ops
+
+
+def tuple_gen(tier, rng, boost=1):
+    """std::tuple<int64,string,int64,bool> (types/std/tuple.h) loaded from arrays whose elements are of another kind at every
+    subset of positions, shorter and longer arrays, non-arrays; both policies, memory and stream"""
+    def sc(kind):
+        if kind == "i": return "i" + str(rng.choice([0, 1, 7, -3, 200, 70000, -40000, 2**40]))
+        if kind == "s": return "s" + bytes(rng.choice(b"abcXYZ") for _ in range(rng.randrange(0, 5))).hex()
+        if kind == "t": return rng.choice(["t", "f"])
+        if kind == "n": return "n"
+        if kind == "d": return "d" + rng.choice(["3ff8000000000000", "4045000000000000"])
+        if kind == "b": return "b" + bytes([1, 2]).hex()
+    want = ["i", "s", "i", "t"]
+    other = {"i": ["s", "n", "d", "b"], "s": ["i", "t", "n", "d"], "t": ["s", "n", "d"]}
+    ops = []
+    n = (150 if tier == "quick" else 3000) * boost
+    for i in range(n):
+        mask = i % 16 if i < 64 else rng.randrange(16)
+        length = 4 if i % 3 else rng.choice([0, 1, 2, 3, 5, 6])
+        toks = []
+        for k in range(length):
+            if k < 4:
+                toks.append(sc(rng.choice(other[want[k]])) if (mask >> k) & 1 else sc(want[k]))
+            else:
+                toks.append(sc(rng.choice("isn")))
+        doc = ",".join([f"a{length}"] + toks)
+        for src in ("mem", "stream"):
+            ops.append(f"mp.tuple {src} skip {doc}")
+        if i % 4 == 0:
+            ops.append(f"mp.tuple {rng.choice(('mem', 'stream'))} throw {doc}")
+    for d in ("i3", "n", "s41", "m1,i1,i2", "t"):
+        for src in ("mem", "stream"):
+            for mis in ("skip", "throw"):
+                ops.append(f"mp.tuple {src} {mis} {d}")
     return ops
